@@ -425,10 +425,12 @@ func (c *FnCtx) lenCap(env *Env, name string, v Val, n ast.Node) Val {
 	case *types.Array:
 		return Val{T: fmt.Sprint(u.Len()), Typ: types.Typ[types.Int]}
 	case *types.Map:
-		fn := "maplen"
-		if !c.declSet[fn] {
-			c.declSet[fn] = true
-			c.decls = append(c.decls, "(declare-fun maplen (Int Int) Int)")
+		// the number of keys of a map is not tracked: an arbitrary non-negative integer
+		// (over-approximation: every property proved holds for whatever the real length is)
+		if name == "len" && env.st != nil {
+			r := c.freshVal("maplen", types.Typ[types.Int], env.st)
+			c.facts = append(c.facts, app(">=", r.T, "0"))
+			return r
 		}
 		c.unsup(n, "len of map")
 	case *types.Chan:
@@ -1007,6 +1009,9 @@ func (c *FnCtx) applyContract(env *Env, fn *types.Func, ct *Contract, recv *Val,
 		if en.Try {
 			continue // unproved clauses are never assumed
 		}
+		if en.GhostDef {
+			c.Trusted["ghost definition at "+shortKey(FuncKey(fn))+": "+en.Src] = true
+		}
 		if strings.Contains(en.Src, "atlock(") {
 			// speaks about the state the callee's critical section found, which the caller
 			// has no name for: not assumed at call sites (weaker, hence sound)
@@ -1292,6 +1297,12 @@ func (e *Engine) modFunc(c *FnCtx, fi *FuncInfo, out map[string]types.Type, seen
 		}
 		seen[fi.Obj] = true
 	}
+	if ct := e.Contracts[fi.Key]; ct != nil {
+		for _, g := range ct.GhostMods {
+			out["GH_"+g] = types.Typ[types.UntypedInt]
+			c.heapSort["GH_"+g] = "(Array Int Int)"
+		}
+	}
 	if ct := e.Contracts[fi.Key]; ct != nil && ct.AssignsGiven {
 		for _, a := range ct.Assigns {
 			e.modOfAssignsClause(c, fi, a.Expr, out)
@@ -1390,6 +1401,33 @@ func (e *Engine) modOfAssignsClause(c *FnCtx, fi *FuncInfo, a ast.Expr, out map[
 							}
 						}
 					}
+				}
+			}
+		}
+	}
+	// all(T).f: field f of every object of struct type T
+	if se, ok := a.(*ast.SelectorExpr); ok && fi != nil && fi.Pkg != nil {
+		if call, ok := unparen(se.X).(*ast.CallExpr); ok && len(call.Args) == 1 {
+			if id, ok := call.Fun.(*ast.Ident); ok && id.Name == "all" {
+				done := false
+				func() {
+					defer func() { recover() }()
+					t := c.specType(&Env{spec: true, spkg: fi.Pkg.Types}, call.Args[0])
+					if _, stt, ok := c.structOf(t); ok {
+						for i := 0; i < stt.NumFields(); i++ {
+							if stt.Field(i).Name() == se.Sel.Name {
+								if e.addrTaken[stt.Field(i).Origin()] {
+									e.addElemKeys(c, stt.Field(i).Type(), out)
+								} else {
+									out[c.fieldKey(t, se.Sel.Name)] = stt.Field(i).Type()
+								}
+								done = true
+							}
+						}
+					}
+				}()
+				if done {
+					return
 				}
 			}
 		}
@@ -1611,6 +1649,9 @@ func (e *Engine) modCall(c *FnCtx, info *types.Info, call *ast.CallExpr, out map
 		dynamic = true
 	}
 	if dynamic {
+		if os.Getenv("ELKVC_MODS_WHY") != "" {
+			fmt.Fprintf(os.Stderr, "mods * : dynamic call at %s\n", e.Fset.Position(call.Pos()))
+		}
 		out["*"] = nil
 		return
 	}
@@ -1618,6 +1659,12 @@ func (e *Engine) modCall(c *FnCtx, info *types.Info, call *ast.CallExpr, out map
 		return
 	}
 	key := FuncKey(callee)
+	if ct := e.Contracts[key]; ct != nil {
+		for _, g := range ct.GhostMods {
+			out["GH_"+g] = types.Typ[types.UntypedInt]
+			c.heapSort["GH_"+g] = "(Array Int Int)"
+		}
+	}
 	if ct := e.Contracts[key]; ct != nil && ct.AssignsGiven {
 		fi := e.ByObj[callee.Origin()]
 		for _, a := range ct.Assigns {
@@ -1665,6 +1712,9 @@ func (e *Engine) modOfMethodNameSeen(c *FnCtx, m *types.Func, seen map[*types.Fu
 	}
 	sort.Strings(keys)
 	if len(keys) > 40 {
+		if os.Getenv("ELKVC_MODS_WHY") != "" {
+			fmt.Fprintf(os.Stderr, "mods * : interface method %s has %d implementations\n", m.Name(), len(keys))
+		}
 		out["*"] = nil
 		return out
 	}
